@@ -25,6 +25,9 @@ PROFILES = {
 }
 
 
+EXTRA_PLANS = {}
+
+
 def run_shard(args):
     """one harness | driver pipeline; returns parsed result"""
     backend, profile, sd, traces, ops, workdir, replay = args
@@ -226,6 +229,29 @@ def check(prop, tier, res, replay=None):
                                    "trace": small, "detail": e["rest"][:1000]}, found=False)
             if len(samples) < 2 and not replay and "trace_file" in r and r.get("backend"):
                 samples.append({"backend": r["backend"], "profile": r["profile"], "trace": extract_trace(r["trace_file"], 0, 5)})
+        # additional case-stream families of this property (rate limiter, size limits, ...)
+        for pl in EXTRA_PLANS.get(prop, []):
+            import pure
+            for sh in range(pl["shards"](tier)):
+                rr = pure.run_cases(pl["sub"], pl["args"](tier, sd, sh), pl["mode"], work, f"{pl['family']}-{sh}")
+                if "error" in rr:
+                    res.violation(f"pipeline:{pl['family']}", "correspondence pipeline failed: " + rr["error"][:600], {"kind": "pipeline", "theorem_or_tie": pl["family"], "log": rr["error"]}, found=False)
+                    continue
+                steps += rr["n"]
+                for k, v in rr["kinds"].items():
+                    kinds[f"{pl['family']}/{k}"] = kinds.get(f"{pl['family']}/{k}", 0) + v
+                per = {}
+                for cse, v in rr["bad"]:
+                    names = v.split(" ")[1].split(",") if v.startswith("PROP ") else []
+                    clause = v.split(" ")[2] if len(v.split(" ")) > 2 else "?"
+                    if prop in names:
+                        per[clause] = per.get(clause, 0) + 1
+                        if per[clause] <= 2:
+                            res.violation(f"{pl['family']}:{clause}:{pure.case_key(cse, pl['key_fields'])}", f"{prop} violated by the implementation on a concrete input ({pl['family']}/{clause}): {v[:300]}",
+                                          {"kind": "case", "family": pl["family"], "case": json.loads(cse), "verdict": v}, found=True)
+                    elif not v.startswith("PROP "):
+                        res.violation(f"{pl['family']}:diverge:{v.split(' ')[1] if ' ' in v else '?'}", f"correspondence broken ({pl['family']}): {v[:300]}",
+                                      {"kind": "case", "family": pl["family"], "theorem_or_tie": f"correspondence {pl['mode']} model vs implementation", "case": cse[:2000], "verdict": v}, found=False)
         nontrivial = len([k for k in kinds if not k.endswith(":0") and "none" not in k])
         cov.update({"evaluations": steps, "distinct_nontrivial": nontrivial,
                     "rule": "one evaluation = one store operation executed on the real memory/SQLite store and on the Lean model, with full snapshot comparison; distinct_nontrivial = distinct (operation kind, response class) pairs that had an effect or a non-empty answer",
